@@ -54,6 +54,10 @@ Proof. exact w_parent_some. Qed.
 Theorem C09_windows_parent : forall l r : list N, w_parent l = Some r ->
   w_components r = removelast (w_components l).
 Proof. exact w_parent_reparse. Qed.
+(* and so along the whole ancestors chain: every entry, read again from scratch, is the previous entry
+   without its last component *)
+Theorem C09_windows_ancestors_chain : forall l : list N, comp_chain (w_ancestors l).
+Proof. exact w_ancestors_chain. Qed.
 Theorem C09_prefix_truncation : forall (l : list N) (k : wprefix) (r r' : list N),
   prefix l = Some (k, r) -> lead r' r -> (k = Verbatim [] -> r' = [] -> r = []) ->
   exists a, l = a ++ r /\ a <> [] /\ prefix (a ++ r') = Some (k, r') /\ exact_verbatim (a ++ r') = exact_verbatim l.
@@ -64,6 +68,7 @@ Print Assumptions C09_windows_pop.
 Print Assumptions C09_windows_parent_state.
 Print Assumptions C09_windows_parent.
 Print Assumptions C09_prefix_truncation.
+Print Assumptions C09_windows_ancestors_chain.
 
 (* non-vacuity *)
 Example C09_example : u_parent [47;97;47;98;47;46;47] = Some [47;97] /\ w_parent [67;58] = None
